@@ -27,6 +27,7 @@ import r_residue
 import r_tape
 import r_tensor
 import r_slots
+import r_constdef
 import r_slotmod
 import r_modeflag
 import r_sendrecv
@@ -381,6 +382,7 @@ def c02(facts, tier):
     n = r_contra.run_pairwise(facts, rep, None if tier == "thorough" else {"src/evaluator.rs"})
     rep.floor("R-CONTRA(pairs)", "pairwise-consuming loops", n, 1)
     r_tensor.run(facts, rep, fnames=("ckks_multiply", "bgv_multiply"), floor=2)
+    r_family.run_negacyclic(facts, rep, floor=1)
     return rep
 
 
@@ -520,6 +522,7 @@ def c12(facts, tier):
     rep.floor("R-CONTRA(absmod)", "reduced magnitudes of signed locals", n, 1)
     r_encadmit.run(facts, rep, floor=4)
     r_outcover.run(facts, rep, floor=2, **({"files": tuple({facts.items[p]["file"] for p in facts.hir})} if tier == "thorough" else {}))
+    r_contra.run_wrapcast(facts, rep, None if tier == "thorough" else {"src/ckks_encoder.rs", "src/batch_encoder.rs"})
     return rep
 
 
@@ -642,6 +645,8 @@ def c11(facts, tier):
     n = r_contra.run_sign_loop(facts, rep, None if tier == "thorough" else {"src/util/number_theory.rs", "src/util/galois.rs",
                                                                              "src/evaluator.rs"})
     rep.floor("R-CONTRA(signloop)", "halving loops over signed values", n, 0)
+    n = r_contra.run_onesided_digit(facts, rep, None if tier == "thorough" else {"src/evaluator.rs", "src/util/galois.rs"})
+    rep.floor("R-CONTRA(onesided)", "equality tests on NAF digits", n, 0)
     return rep
 
 
@@ -673,6 +678,8 @@ def c04(facts, tier):
     n = r_contra.run_sign_loop(facts, rep, None if tier == "thorough" else {"src/util/number_theory.rs", "src/util/galois.rs",
                                                                              "src/evaluator.rs"})
     rep.floor("R-CONTRA(signloop)", "halving loops over signed values", n, 0)
+    n = r_contra.run_onesided_digit(facts, rep, None if tier == "thorough" else {"src/evaluator.rs", "src/util/galois.rs"})
+    rep.floor("R-CONTRA(onesided)", "equality tests on NAF digits", n, 0)
     return rep
 
 
@@ -769,7 +776,7 @@ def c14(facts, tier):
     repstate(facts, rep, writers, 110)
     n = r_wire.run_use(facts, rep)
     rep.floor("R-WIRE(use)", "readers with let-bound reads", n, 8)
-    r_slots.run(facts, rep, floor=1)
+    r_slots.run(facts, rep, floor=0)
     return rep
 
 
@@ -790,6 +797,7 @@ def c13(facts, tier):
     r_ladder.run_ident(facts, rep)
     r_ladder.run_hashin(facts, rep)
     r_chain.run(facts, rep)
+    r_constdef.run(facts, rep, floor=0)
     n_loops, _ = r_loop.run(facts, rep, scope_files={"src/context.rs", "src/modulus.rs", "src/encryption_parameters.rs"},
                             level_walk=False)
     return rep
@@ -827,6 +835,7 @@ def c19(facts, tier):
     r_lwepair.run(facts, rep)
     r_lwepair.run_levels(facts, rep)
     r_lwepair.run_packmeta(facts, rep)
+    r_lwepair.run_packshift(facts, rep)
     ents = [p for p in facts.items if p.startswith("app::lwe::") and facts.items[p].get("vis") == "pub" and p in facts.hir]
     repstate(facts, rep, ents, 40)
     r_loop.run(facts, rep, {"src/app/lwe.rs"}, level_walk=False)
